@@ -76,6 +76,9 @@ def fixed_cases(tier: str):
     if tier == "thorough":
         out = out + [{"kind": "repo_tests", "file": f} for f in ("test_correlation.py", "test_trace_analysis.py")]
         out = out + [{"files": {"rank0.json": gen_sim.huge_trace(21)}, "cfg": {"mode": "load", "mp": False, "inc_last": False, "parser": "default"}, "time_unit": 1}]          # row ids beyond int16
+        # more than 2^15 host calls that carry a correlation id (block-wise joins, 16-bit positions)
+        out = out + [{"files": {"rank0.json": gen_sim.huge_trace(22, n_steps=200)}, "cfg": {"mode": "parse", "mp": False, "inc_last": False, "parser": "default"}, "time_unit": 1,
+                      "many_host_ids": True}]
     return out
 
 
@@ -117,6 +120,9 @@ def run_case(case: Dict[str, Any], ctx: Any) -> core.CaseResult:
                 res.bad("column", f"rank {r}: no index_correlation column")
                 continue
             present = set(df["index"].tolist())
+            n_host_ids = sum(1 for e in m if e.corr != -1 and not e.device_side)
+            if n_host_ids > 2 ** 15:
+                res.counters["ranks_with_more_than_32768_host_calls_carrying_an_id"] += 1
             if len(df) > 127:
                 res.counters["rows_gt_127"] += 1
                 if max((e.corr for e in m), default=0) < 128 and any(x > 127 for x in exp.values()):
